@@ -15,19 +15,39 @@
 //!      them is visible.
 //!      -> `d=<data() bytes> p=<pixel() over y = -1..=H, x = -1..=W row-major; n = None>
 //!          img=<pixel map left by drawing as_image() at the origin on a draw_iter-only target>`
+//!      Sizes also include a zero-width (0x3) and a zero-height (4x0) framebuffer: `Framebuffer<.., 0, H, 0>`
+//!      is a legal instantiation (BUFFER_SIZE 0, `[u8; 0]`); every point is outside, nothing may be written.
+//!   fb.draw <bits> <order 0|1> <W> <H> <extra> <spec> <writes>
+//!      a REAL drawable drawn into a fresh framebuffer (`Drawable::draw(&mut fb)`):
+//!        spec = l:x0,y0,x1,y1,sw,c              Line, stroke width sw
+//!               r:x,y,w,h,sw,sc,fc              Rectangle   (sc / fc = -1: no stroke / fill colour)
+//!               c:x,y,d,sw,sc,fc                Circle
+//!               t:x0,y0,x1,y1,x2,y2,sw,sc,fc    Triangle
+//!               x:x,y,tc,bg,cp,cp,..            Text in FONT_4X6, Baseline::Top (tc / bg = -1: none)
+//!        writes = `x,y,c,x,y,c,..` | `-`: the pixel sequence the same drawable offers to a draw_iter-only
+//!               recording target with the framebuffer's bounding box (computed by the generator from the real
+//!               code; re-computed on execution: a differing list gives `stale-writes`). The model receives the
+//!               drawable through this list (`Fb.drawIter`), the real framebuffer through `draw()`.
+//!      -> the same `d= p= img=` line as fb.hist
+//!      (instantiated for sizes {5x3 exact, 13x3 +3, 0x3 +3} only, to bound compile time)
 //!
 //! Oracle (property text as predicates; reference = a HashMap last-write model fed with the
 //! documented meaning of each operation), evaluated after EVERY op of the history:
 //!   Lean statements mirrored: `get_set`, `history_refines_map`, `outside_noop`, `tail_untouched`,
 //!   `buffer_size_spec`, `as_image_spec` (+ the layout of the bytes, by `m_raw::ref_load`).
+//!   fb.draw: after drawing, `pixel(p)` over the box = the pixel map the drawable leaves on an UNBOUNDED
+//!   recording target, restricted to the box, 0 where it draws nothing (class drawable-picture-ne-recording-
+//!   target), and = the map on the recording target with the framebuffer's box; bytes / tail / as_image as above.
 use crate::common::*;
 use crate::m_raw::{mask, ref_load};
 use embedded_graphics::{
     framebuffer::{buffer_size, Framebuffer},
     image::{GetPixel, Image, ImageRaw},
+    mono_font::{ascii::FONT_4X6, MonoTextStyle, MonoTextStyleBuilder},
     pixelcolor::{raw::*, *},
     prelude::*,
-    primitives::Rectangle,
+    primitives::{Circle, Line, PrimitiveStyle, PrimitiveStyleBuilder, Rectangle, Triangle},
+    text::{Baseline, Text},
     Pixel,
 };
 use std::collections::HashMap;
@@ -60,7 +80,9 @@ impl ColNum for U32Color {
 }
 
 const TAIL: [u8; 8] = [0xA5, 0x5A, 0xC3, 0x3C, 0x99, 0x66, 0xF0, 0x0F];
-const SIZES: [(usize, usize); 5] = [(1, 1), (5, 3), (8, 2), (9, 2), (13, 3)];
+const SIZES: [(usize, usize); 7] = [(1, 1), (5, 3), (8, 2), (9, 2), (13, 3), (0, 3), (4, 0)];
+/// (W, H, extra) instantiated for `fb.draw`
+const DRAW_SIZES: [(usize, usize, usize); 3] = [(5, 3, 0), (13, 3, 3), (0, 3, 3)];
 const DEPTHS: [u32; 7] = [1, 2, 4, 8, 16, 24, 32];
 
 /// What the harness needs from a concrete framebuffer instantiation.
@@ -175,6 +197,8 @@ macro_rules! mk_size {
             (8, 2) => mk_one!($c, $o, 8, 2, $extra),
             (9, 2) => mk_one!($c, $o, 9, 2, $extra),
             (13, 3) => mk_one!($c, $o, 13, 3, $extra),
+            (0, 3) => mk_one!($c, $o, 0, 3, $extra),
+            (4, 0) => mk_one!($c, $o, 4, 0, $extra),
             _ => panic!("size not instantiated"),
         }
     };
@@ -199,6 +223,200 @@ fn make(bits: u32, ord: u32, w: usize, h: usize, extra: usize) -> Box<dyn FbDyn>
         24 => mk_order!(Rgb888, ord, w, h, extra),
         32 => mk_order!(U32Color, ord, w, h, extra),
         _ => panic!("bad depth"),
+    }
+}
+
+// ---------------------------------------------------------------------------------------------
+// real drawables (fb.draw)
+// ---------------------------------------------------------------------------------------------
+#[derive(Debug, Clone)]
+enum Spec {
+    Line(Point, Point, u32, u32),
+    Rect(Rectangle, u32, Option<u32>, Option<u32>),
+    Circle(Point, u32, u32, Option<u32>, Option<u32>),
+    Tri(Point, Point, Point, u32, Option<u32>, Option<u32>),
+    Text(Point, Option<u32>, Option<u32>, String),
+}
+fn opt_c(v: i64) -> Option<u32> {
+    if v < 0 {
+        None
+    } else {
+        Some(v as u32)
+    }
+}
+fn parse_spec(tok: &str) -> Spec {
+    let (k, rest) = tok.split_once(':').expect("spec kind");
+    let v: Vec<i64> = rest.split(',').map(|x| x.parse().expect("bad spec item")).collect();
+    let pt = |i: usize| Point::new(v[i] as i32, v[i + 1] as i32);
+    match k {
+        "l" => Spec::Line(pt(0), pt(2), v[4] as u32, v[5] as u32),
+        "r" => Spec::Rect(Rectangle::new(pt(0), Size::new(v[2] as u32, v[3] as u32)), v[4] as u32, opt_c(v[5]), opt_c(v[6])),
+        "c" => Spec::Circle(pt(0), v[2] as u32, v[3] as u32, opt_c(v[4]), opt_c(v[5])),
+        "t" => Spec::Tri(pt(0), pt(2), pt(4), v[6] as u32, opt_c(v[7]), opt_c(v[8])),
+        "x" => Spec::Text(pt(0), opt_c(v[2]), opt_c(v[3]), v[4..].iter().map(|c| char::from_u32(*c as u32).expect("scalar")).collect()),
+        _ => panic!("bad spec kind"),
+    }
+}
+fn pstyle<C: ColNum>(sw: u32, sc: Option<u32>, fc: Option<u32>) -> PrimitiveStyle<C> {
+    let mut b = PrimitiveStyleBuilder::new().stroke_width(sw);
+    if let Some(c) = sc {
+        b = b.stroke_color(C::from_num(c));
+    }
+    if let Some(c) = fc {
+        b = b.fill_color(C::from_num(c));
+    }
+    b.build()
+}
+/// `Drawable::draw` of the real drawable a spec describes, on any target
+fn draw_spec<C: ColNum, D: DrawTarget<Color = C>>(s: &Spec, t: &mut D) -> Result<(), D::Error> {
+    match s {
+        Spec::Line(a, b, sw, c) => Line::new(*a, *b).into_styled(pstyle::<C>(*sw, Some(*c), None)).draw(t),
+        Spec::Rect(r, sw, sc, fc) => r.into_styled(pstyle::<C>(*sw, *sc, *fc)).draw(t),
+        Spec::Circle(p, d, sw, sc, fc) => Circle::new(*p, *d).into_styled(pstyle::<C>(*sw, *sc, *fc)).draw(t),
+        Spec::Tri(a, b, c, sw, sc, fc) => Triangle::new(*a, *b, *c).into_styled(pstyle::<C>(*sw, *sc, *fc)).draw(t),
+        Spec::Text(p, tc, bg, text) => {
+            let mut st: MonoTextStyle<C> = MonoTextStyleBuilder::new().font(&FONT_4X6).build();
+            st.text_color = tc.map(C::from_num);
+            st.background_color = bg.map(C::from_num);
+            Text::with_baseline(text, *p, st, Baseline::Top).draw(t).map(|_| ())
+        }
+    }
+}
+/// the drawable on a draw_iter-only recording target: (final pixel map, every pixel offered, in order)
+fn record<C: ColNum>(s: &Spec, bbox: Option<Rectangle>) -> (PMap, Vec<((i32, i32), u32)>) {
+    let mut r = match bbox {
+        Some(b) => R1::<C>::new(b),
+        None => R1::<C>::unbounded(),
+    };
+    draw_spec::<C, _>(s, &mut r).expect("recording target does not fail");
+    let mut seq = Vec::new();
+    for c in &r.rec.log {
+        match c {
+            Call::DrawIter(px) => seq.extend(px.iter().cloned()),
+            other => panic!("draw_iter-only target logged {:?}", other),
+        }
+    }
+    (r.rec.map, seq)
+}
+fn record_by_bits(bits: u32, s: &Spec, bbox: Option<Rectangle>) -> (PMap, Vec<((i32, i32), u32)>) {
+    match bits {
+        1 => record::<BinaryColor>(s, bbox),
+        2 => record::<Gray2>(s, bbox),
+        4 => record::<Gray4>(s, bbox),
+        8 => record::<Gray8>(s, bbox),
+        16 => record::<Rgb565>(s, bbox),
+        24 => record::<Rgb888>(s, bbox),
+        32 => record::<U32Color>(s, bbox),
+        _ => panic!("bad depth"),
+    }
+}
+fn fmt_seq(seq: &[((i32, i32), u32)]) -> String {
+    if seq.is_empty() {
+        return "-".into();
+    }
+    let mut v = Vec::with_capacity(seq.len() * 3);
+    for ((x, y), c) in seq {
+        v.push(x.to_string());
+        v.push(y.to_string());
+        v.push(c.to_string());
+    }
+    v.join(",")
+}
+
+/// a framebuffer a real drawable can be drawn into (only the instantiations of `DRAW_SIZES`)
+trait FbDraw: FbDyn {
+    fn draw(&mut self, s: &Spec);
+    fn as_dyn(&self) -> &dyn FbDyn;
+}
+macro_rules! fam_draw {
+    ($raw:ty, $o:ty) => {
+        impl<C: PixelColor<Raw = $raw> + ColNum + Into<$raw>, const W: usize, const H: usize, const N: usize> FbDraw
+            for Framebuffer<C, $raw, $o, W, H, N>
+        {
+            fn draw(&mut self, s: &Spec) {
+                draw_spec::<C, _>(s, self).unwrap();
+            }
+            fn as_dyn(&self) -> &dyn FbDyn {
+                self
+            }
+        }
+    };
+}
+fam_draw!(RawU1, LittleEndianMsb0);
+fam_draw!(RawU1, BigEndianLsb0);
+fam_draw!(RawU2, LittleEndianMsb0);
+fam_draw!(RawU2, BigEndianLsb0);
+fam_draw!(RawU4, LittleEndianMsb0);
+fam_draw!(RawU4, BigEndianLsb0);
+fam_draw!(RawU8, LittleEndianMsb0);
+fam_draw!(RawU8, BigEndianLsb0);
+fam_draw!(RawU16, LittleEndianMsb0);
+fam_draw!(RawU16, BigEndianLsb0);
+fam_draw!(RawU24, LittleEndianMsb0);
+fam_draw!(RawU24, BigEndianLsb0);
+fam_draw!(RawU32, LittleEndianMsb0);
+fam_draw!(RawU32, BigEndianLsb0);
+
+macro_rules! mkd_one {
+    ($c:ty, $o:ty, $w:expr, $h:expr, $extra:expr) => {
+        Box::new(Framebuffer::<$c, <$c as PixelColor>::Raw, $o, $w, $h, { buffer_size::<$c>($w, $h) + $extra }>::new()) as Box<dyn FbDraw>
+    };
+}
+macro_rules! mkd_size {
+    ($c:ty, $o:ty, $w:expr, $h:expr, $extra:expr) => {
+        match ($w, $h, $extra) {
+            (5, 3, 0) => mkd_one!($c, $o, 5, 3, 0),
+            (13, 3, 3) => mkd_one!($c, $o, 13, 3, 3),
+            (0, 3, 3) => mkd_one!($c, $o, 0, 3, 3),
+            _ => panic!("size not instantiated for fb.draw"),
+        }
+    };
+}
+macro_rules! mkd_order {
+    ($c:ty, $ord:expr, $w:expr, $h:expr, $extra:expr) => {
+        if $ord == 0 {
+            mkd_size!($c, LittleEndianMsb0, $w, $h, $extra)
+        } else {
+            mkd_size!($c, BigEndianLsb0, $w, $h, $extra)
+        }
+    };
+}
+fn make_draw(bits: u32, ord: u32, w: usize, h: usize, extra: usize) -> Box<dyn FbDraw> {
+    match bits {
+        1 => mkd_order!(BinaryColor, ord, w, h, extra),
+        2 => mkd_order!(Gray2, ord, w, h, extra),
+        4 => mkd_order!(Gray4, ord, w, h, extra),
+        8 => mkd_order!(Gray8, ord, w, h, extra),
+        16 => mkd_order!(Rgb565, ord, w, h, extra),
+        24 => mkd_order!(Rgb888, ord, w, h, extra),
+        32 => mkd_order!(U32Color, ord, w, h, extra),
+        _ => panic!("bad depth"),
+    }
+}
+
+fn rand_spec(rng: &mut Rng, bits: u32, w: i64, h: i64) -> String {
+    let px = |rng: &mut Rng| rng.range(-3, w + 2);
+    let py = |rng: &mut Rng| rng.range(-3, h + 2);
+    let oc = |rng: &mut Rng| -> i64 {
+        if rng.chance(1, 4) {
+            -1
+        } else {
+            rand_color(rng, bits).max(1) as i64
+        }
+    };
+    match rng.below(5) {
+        0 => format!("l:{},{},{},{},{},{}", px(rng), py(rng), px(rng), py(rng), rng.range(0, 3), rand_color(rng, bits).max(1)),
+        1 => format!("r:{},{},{},{},{},{},{}", px(rng), py(rng), rng.range(0, w + 3), rng.range(0, h + 3), rng.range(0, 2), oc(rng), oc(rng)),
+        2 => format!("c:{},{},{},{},{},{}", px(rng) - 2, py(rng) - 2, rng.range(0, 9), rng.range(0, 2), oc(rng), oc(rng)),
+        3 => format!("t:{},{},{},{},{},{},{},{},{}", px(rng), py(rng), px(rng), py(rng), px(rng), py(rng), rng.range(0, 2), oc(rng), oc(rng)),
+        _ => {
+            let n = rng.range(0, 3);
+            let mut s = format!("x:{},{},{},{}", px(rng), rng.range(-5, h), oc(rng), oc(rng));
+            for _ in 0..n {
+                s.push_str(&format!(",{}", *rng.pick(&[65i64, 105, 32, 87, 10, 233, 126])));
+            }
+            s
+        }
     }
 }
 
@@ -275,6 +493,8 @@ fn fmt_op(op: &Op) -> String {
 }
 
 fn rand_point(rng: &mut Rng, w: i64, h: i64) -> Point {
+    // zero-width / zero-height framebuffers: column / row 0 stands in for "the last one" (it is outside)
+    let (w, h) = (w.max(1), h.max(1));
     match rng.below(20) {
         0..=13 => Point::new(rng.range(0, w - 1) as i32, rng.range(0, h - 1) as i32),
         14..=17 => Point::new(rng.range(-2, w + 1) as i32, rng.range(-2, h + 1) as i32),
@@ -321,15 +541,97 @@ fn rand_op(rng: &mut Rng, bits: u32, w: i64, h: i64) -> Op {
     }
 }
 
+/// fb.draw: a real drawable drawn into a fresh framebuffer, judged against the recording targets
+#[allow(clippy::too_many_arguments)]
+fn exec_draw(op: &str, ctx: &mut Ctx, bits: u32, order: u32, w: usize, h: usize, extra: usize, spec: &Spec, wtok: &str) -> String {
+    let (wi, hi) = (w as i64, h as i64);
+    let bbox = Rectangle::new(Point::zero(), Size::new(w as u32, h as u32));
+    let (bmap, bseq) = record_by_bits(bits, spec, Some(bbox));
+    if fmt_seq(&bseq) != wtok {
+        return "stale-writes".into();
+    }
+    let (umap, _) = record_by_bits(bits, spec, None);
+    ctx.count("draw");
+    ctx.count(&format!("draw:bits={}:order={}", bits, order));
+    ctx.count(&format!("draw:size={}x{}:extra={}", w, h, extra));
+    ctx.count(match spec {
+        Spec::Line(..) => "draw:line",
+        Spec::Rect(..) => "draw:rectangle",
+        Spec::Circle(..) => "draw:circle",
+        Spec::Tri(..) => "draw:triangle",
+        Spec::Text(..) => "draw:text",
+    });
+    let mut fb = make_draw(bits, order, w, h, extra);
+    let row_bytes = (w * bits as usize + 7) / 8;
+    let bs = row_bytes * h;
+    ctx.expect(fb.bytes().len() == bs + extra, "buffer-size", || format!("{} N={} expected {}", op, fb.bytes().len(), bs + extra));
+    fb.preset_tail(bs);
+    let tail0: Vec<u8> = fb.bytes()[bs..].to_vec();
+    fb.draw(spec);
+    let data = fb.bytes();
+    let row_pixels = if bits < 8 { row_bytes * (8 / bits as usize) } else { w };
+    let inside = |x: i64, y: i64| x >= 0 && y >= 0 && x < wi && y < hi;
+    let mut any = false;
+    for y in -1..=hi {
+        for x in -1..=wi {
+            let got = fb.get(Point::new(x as i32, y as i32));
+            if inside(x, y) {
+                // the picture the drawable leaves on an unbounded recording target, cut to the box; 0 elsewhere
+                let want = Some(*umap.get(&(y as i32, x as i32)).unwrap_or(&0));
+                let want_b = Some(*bmap.get(&(y as i32, x as i32)).unwrap_or(&0));
+                if want != Some(0) {
+                    any = true;
+                }
+                ctx.expect(got == want, "drawable-picture-ne-recording-target", || format!("{}: pixel({},{}) = {:?}, recording target {:?}", op, x, y, got, want));
+                ctx.expect(got == want_b, "drawable-picture-ne-bounded-recording-target", || format!("{}: pixel({},{}) = {:?}, recording target {:?}", op, x, y, got, want_b));
+                let l = ref_load(bits, order, &data[..bs], y as usize * row_pixels + x as usize);
+                ctx.expect(l == want, "layout-bytes", || format!("{}: bytes say {:?} at ({},{}), want {:?}", op, l, x, y, want));
+            } else {
+                ctx.expect(got.is_none(), "pixel-outside-none", || format!("{}: pixel({},{}) = {:?}", op, x, y, got));
+            }
+        }
+    }
+    if any {
+        ctx.nontrivial(op);
+    }
+    if umap.keys().any(|(y, x)| !inside(*x as i64, *y as i64)) {
+        ctx.count("draw:drawable-extends-outside-the-box");
+    }
+    ctx.expect(data[bs..] == tail0[..], "tail-modified", || format!("{}: tail {:?}", op, &data[bs..]));
+    ctx.expect(fb.as_dyn().image_is_raw_over_prefix(bs), "as-image-not-raw-over-prefix", || op.to_string());
+    let img = fb.image_map();
+    let mut want_img = PMap::new();
+    for y in 0..hi {
+        for x in 0..wi {
+            want_img.insert((y as i32, x as i32), *umap.get(&(y as i32, x as i32)).unwrap_or(&0));
+        }
+    }
+    ctx.expect(img == want_img, "as-image-draw", || format!("{} drawn {} want {}", op, fmt_map(&img), fmt_map(&want_img)));
+    let mut grid = Vec::new();
+    for y in -1..=hi {
+        for x in -1..=wi {
+            grid.push(match fb.get(Point::new(x as i32, y as i32)) {
+                Some(v) => v.to_string(),
+                None => "n".into(),
+            });
+        }
+    }
+    format!("d={} p={} img={}", fmt_list(fb.bytes().iter()), grid.join(","), fmt_map(&img))
+}
+
 impl Module for M {
     fn name(&self) -> &'static str {
         "fb"
     }
     fn rule(&self) -> &'static str {
-        "ops: for each of 7 depths x 2 data orders x sizes {1x1,5x3,8x2,9x2,13x3} x N in {BUFFER_SIZE, BUFFER_SIZE+3}: \
+        "ops: for each of 7 depths x 2 data orders x sizes {1x1,5x3,8x2,9x2,13x3, 0x3 (zero width), 4x0 (zero height)} x N in \
+         {BUFFER_SIZE, BUFFER_SIZE+3}: \
          the empty history, one set_pixel of the all-ones colour and of colour 1 at every point of the box + 1px margin \
          (exhaustive), then seeded random histories (200 of length <= 12 quick; 5000 of length <= 40 thorough) of set_pixel / \
          draw_iter / fill_solid / clear / fill_contiguous with points inside, in the margin and far outside (i32::MIN/MAX). \
+         fb.draw: per depth x order x {5x3, 13x3+3, 0x3+3} 25 (quick) / 400 (thorough) seeded real drawables (styled Line, \
+         Rectangle, Circle, Triangle with stroke widths 0..=3 and optional stroke / fill colours, Text in FONT_4X6 incl. a \
+         newline and an unmapped character) placed in and around the box, drawn with `draw(&mut framebuffer)`. \
          A history is non-trivial when at least one of its writes lands inside the box with a colour different from the \
          pixel's previous one; distinct = distinct op text."
     }
@@ -358,6 +660,15 @@ impl Module for M {
                         }
                     }
                 }
+                // real drawables drawn into the framebuffer
+                for &(w, h, extra) in &DRAW_SIZES {
+                    let bbox = Rectangle::new(Point::zero(), Size::new(w as u32, h as u32));
+                    for _ in 0..(if tier == Tier::Quick { 25 } else { 400 }) {
+                        let spec = rand_spec(rng, bits, w as i64, h as i64);
+                        let (_, seq) = record_by_bits(bits, &parse_spec(&spec), Some(bbox));
+                        emit(format!("fb.draw {} {} {} {} {} {} {}", bits, order, w, h, extra, spec, fmt_seq(&seq)));
+                    }
+                }
             }
         }
     }
@@ -365,12 +676,17 @@ impl Module for M {
     fn execute(&self, op: &str, ctx: &mut Ctx) -> String {
         let mut t = Toks::new(op);
         let stream = t.str();
-        assert!(stream == "fb.hist", "unknown op {}", op);
+        assert!(stream == "fb.hist" || stream == "fb.draw", "unknown op {}", op);
         let bits = t.u32();
         let order = t.u32();
         let w = t.usize();
         let h = t.usize();
         let extra = t.usize();
+        if stream == "fb.draw" {
+            let spec = parse_spec(t.str());
+            let wtok = t.str();
+            return exec_draw(op, ctx, bits, order, w, h, extra, &spec, wtok);
+        }
         let mut ops = Vec::new();
         while let Some(tok) = t.opt() {
             ops.push(parse_op(tok));
